@@ -2,6 +2,7 @@ package props
 
 import (
 	"fmt"
+	"math"
 	"strings"
 	"testing"
 	"unicode"
@@ -45,6 +46,14 @@ func c05Options(t *rapid.T, words []string) []database.SearchOptions {
 		mk(func(o *database.SearchOptions) { o.Platforms = []string{"macos"} }),
 		mk(func(o *database.SearchOptions) { o.NoCrossPlatform = true }),
 		mk(func(o *database.SearchOptions) { o.Platforms = []string{"windows"}; o.NoCrossPlatform = true }),
+		// non-finite boosts (legal float64 values): one-field deltas of each other
+		mk(func(o *database.SearchOptions) { o.PipelineBoost = math.Inf(1) }),
+		mk(func(o *database.SearchOptions) { o.PipelineBoost = math.Inf(1); o.PipelineOnly = true }),
+		mk(func(o *database.SearchOptions) { o.PipelineBoost = math.Inf(1); o.AllPlatforms = true }),
+		mk(func(o *database.SearchOptions) { o.PipelineBoost = math.Inf(1); o.UseNLP = false }),
+		mk(func(o *database.SearchOptions) { o.ContextBoosts = map[string]float64{w(0): math.Inf(1)} }),
+		mk(func(o *database.SearchOptions) { o.ContextBoosts = map[string]float64{w(0): math.Inf(1)}; o.UseFuzzy = false }),
+		mk(func(o *database.SearchOptions) { o.ContextBoosts = map[string]float64{w(1): math.Inf(1)} }),
 	}
 	return pool
 }
@@ -238,6 +247,12 @@ func TestC05_Cache(t *testing.T) {
 			},
 			"update": func(t *rapid.T) {
 				cmds = c05DB(t, "cmds2")
+				switch rapid.IntRange(0, 7).Draw(t, "tiny-replacement") {
+				case 0:
+					cmds = nil // replaced by an empty database: every cached answer is stale
+				case 1:
+					cmds = cmds[:1]
+				}
 				src := gen.Load(t, cmds)
 				if useMon && rapid.Bool().Draw(t, "via-monitor") {
 					if err := mdb.LoadDatabaseWithMonitoring(src.Commands); err != nil {
